@@ -130,21 +130,22 @@ class CallbackInfo:
 
 
 def _all_tensors(
-    graph: _core.Graph, include_attributes: bool = False
+    graph: _core.Graph | _core.Function, include_attributes: bool = False
 ) -> Iterator[_protocols.TensorProtocol]:
     """Iterate over all tensors in the graph.
 
     Args:
-        graph: The graph to traverse tensors on.
+        graph: The graph or function to traverse tensors on.
         include_attributes: Whether to include tensors in attributes.
 
     Yields:
         Tensors in the graph.
     """
-    # Yield all tensors in initializers
-    for value in graph.initializers.values():
-        if (tensor := value.const_value) is not None:
-            yield tensor
+    # Yield all tensors in initializers. Functions do not have initializers.
+    if isinstance(graph, _core.Graph):
+        for value in graph.initializers.values():
+            if (tensor := value.const_value) is not None:
+                yield tensor
     if not include_attributes:
         return
     # Look at constant attributes in nodes
@@ -167,11 +168,13 @@ def _all_tensors(
                             yield tensor
 
 
-def set_base_dir(graph: _core.Graph, base_dir: str | os.PathLike) -> None:
+def set_base_dir(
+    graph: _core.Graph | _core.Function, base_dir: str | os.PathLike
+) -> None:
     """Set the base directory for external data in a graph (including all of its subgraphs).
 
     Args:
-        graph: The graph to traverse tensors on.
+        graph: The graph or function to traverse tensors on.
         base_dir: The base directory. This is the directory where the ONNX file is.
     """
     for tensor in _all_tensors(graph, include_attributes=True):
